@@ -73,7 +73,20 @@ def boundary_fold(chk, repo, clause):
             if isinstance(r, Tup) and len(r) == 4:
                 for k, it in enumerate(r.items):
                     a = it.single_atom() if isinstance(it, Poly) else None
-                    okk = a is not None and is_app(a, ('amin', 'min') if k % 2 == 0 else ('amax', 'max'))
+                    MINS, MAXS = ('amin', 'min', 'm:min', 'minimum', 'nanmin'), ('amax', 'max', 'm:max', 'maximum', 'nanmax')
+                    right, wrong = (MINS, MAXS) if k % 2 == 0 else (MAXS, MINS)
+                    okk = a is not None and is_app(a, right)
+                    if not okk and isinstance(it, Poly):
+                        ats = nf.value_atoms(it)
+                        big = nf.sym('sys.maxsize')
+                        if any(is_app(x, wrong) for x in ats):
+                            okk = False
+                        elif any(is_app(x, right) for x in ats):
+                            okk = True            # the reduction of a table of extents, read out of a row / converted to a scalar
+                        elif it in ((big, nf.sym('inf')) if k % 2 == 0 else (-big, -nf.sym('inf'))):
+                            okk = True            # the identity of the fold, returned for an empty collection
+                        else:
+                            okk = None
                     n += 1
                     chk.ob(clause, 'R-fold', f.key, f'component {k} is a min/max reduction', okk, fmt(it), f.loc(p.node))
             continue
@@ -689,11 +702,11 @@ def insert_rules(chk, repo, clause='C06-c'):
             ul = HALF(oshape.items[ax]) - HALF(fshape.items[ax]) + foff.items[ax]
             n += 1
             chk.ob(clause, 'N-identity', 'field.insert', f'axis {ax} equal lengths [{conds_str(p)}]',
-                   identity_holds((o.hi - o.lo) - (fs.hi - fs.lo), nf.ZERO),
+                   identity_holds((o.hi - o.lo) - (fs.hi - fs.lo), nf.ZERO, p.conds),
                    f'out slice {fmt(o)} and field slice {fmt(fs)} differ in length by {fmt((o.hi - o.lo) - (fs.hi - fs.lo))}',
                    f.loc(ws[0].node))
             chk.ob(clause, 'N-identity', 'field.insert', f'axis {ax} alignment [{conds_str(p)}]',
-                   identity_holds(o.lo - fs.lo, ul),
+                   identity_holds(o.lo - fs.lo, ul, p.conds),
                    f'out.start - field.start = {fmt(o.lo - fs.lo)}; the upper-left corner is {fmt(ul)}',
                    f.loc(ws[0].node))
             # the written window lies inside the array: clipped to [0, out.shape[ax]] of the *same* axis
